@@ -1,6 +1,7 @@
 """C12: default partitioner - explicit kept, keyed = XXH32(key, 0) mod N, keyless rotates."""
 import kproto
 from val import T, dumps
+from props import common
 from props.common import boot_ops, brokers, parsed_requests, rand_bytes
 
 SLICE = "Producer.partition / send_all_reqs (DefaultPartitioner, Producer::send_all)"
@@ -57,8 +58,10 @@ def make_case(rng, keys=None, wrap=False, ntopics=None):
     names = [b"t%d" % i for i in range(ntopics or rng.randint(1, 3))]
     for t in names:
         n = rng.choice([1, 2, 3, 4, 5, 7, 8, 16, 33, 64]) if not wrap else rng.choice([1, 2, 4, 8])
-        topics[t] = [(-1 if rng.random() < 0.08 else rng.randint(1, nb)) for _ in range(n)]
+        dead = rng.choice([0.08, 0.08, 0.08, 0.08, 0.5, 1.0])       # share of leaderless partitions; 1.0: none is available
+        topics[t] = [(-1 if rng.random() < dead else rng.randint(1, nb)) for _ in range(n)]
     spec = {"brokers": brokers(nb), "topics": topics, "logs": {}}
+    common.maybe_order(rng, spec)
     ops = boot_ops(spec) + [T("producer_build", [T("from_client"), [T("with_required_acks", [1])]])]
     serial = [0]
     meta_batches = []
